@@ -6,6 +6,7 @@ package attackctl
 
 import (
 	"bytes"
+	"crypto/tls"
 	"fmt"
 	"io"
 	"net/http"
@@ -134,6 +135,10 @@ func NewWithDuration(workers, maxWorkers uint64, maxFirst bool, du time.Duration
 	if maxFirst {
 		opts[0], opts[1] = opts[1], opts[0]
 	}
+	// bystander options: settings of the attacker that have nothing to do with scheduling (they configure the default
+	// client, which vegeta.Client then replaces, or fields the hit path reads). Whatever their value, the attack is the
+	// same transition system; which ones are set varies with the configuration.
+	opts = append(opts, Bystanders(workers*31+maxWorkers*7+uint64(du))...)
 	opts = append(opts, vegeta.Client(&http.Client{Transport: rt{c}}))
 	c.atk = vegeta.NewAttacker(opts...)
 	tr := vegeta.Targeter(func(t *vegeta.Target) error {
@@ -153,6 +158,26 @@ func NewWithDuration(workers, maxWorkers uint64, maxFirst bool, du time.Duration
 	})
 	c.res = c.atk.Attack(tr, ctlPacer{c}, c.du, "ctl")
 	return c
+}
+
+// Bystanders returns a selection (determined by k) of attacker options that do not concern scheduling.
+func Bystanders(k uint64) []func(*vegeta.Attacker) {
+	all := []func(*vegeta.Attacker){
+		vegeta.SessionTickets(true), vegeta.HTTP2(false), vegeta.KeepAlive(false), vegeta.Redirects(vegeta.NoFollow), vegeta.Redirects(3),
+		vegeta.MaxBody(0), vegeta.MaxBody(16), vegeta.Timeout(5 * time.Second), vegeta.Connections(7), vegeta.MaxConnections(3),
+		vegeta.ChunkedBody(true), vegeta.ProxyHeader(http.Header{"X-Verif": []string{"1"}}), vegeta.TLSConfig(&tls.Config{}),
+		vegeta.SessionTickets(false), vegeta.HTTP2(true), vegeta.KeepAlive(true),
+	}
+	var out []func(*vegeta.Attacker)
+	if k%3 == 0 {
+		return out // a third of the configurations: none
+	}
+	for i, o := range all {
+		if (k>>uint(i%16))&1 == 1 || (k+uint64(i))%5 == 0 {
+			out = append(out, o)
+		}
+	}
+	return out
 }
 
 // goroutine dump inspection --------------------------------------------------
